@@ -144,12 +144,15 @@ func genTrialScenario(rng *rand.Rand, n int, seed int64) *CaseDesc {
 	z0.Required = chance(rng, 0.5)
 	filler()
 	// the provider the trials remove, and the middle provider fed by it
-	y := add(&ProvDesc{Out: []int{S}, Shun: chance(rng, 0.8)})
+	// (which of the two is Shun'd varies: when it is the middle provider, the trials remove the nearest source of T
+	// itself and the provider that only fed it has to go in a later round)
+	variant := rng.Intn(3)
+	y := add(&ProvDesc{Out: []int{S}, Shun: variant != 1 && chance(rng, 0.9)})
 	if chance(rng, 0.3) {
 		y.Out = append(y.Out, X)
 	}
 	filler()
-	add(&ProvDesc{In: []int{S}, Out: []int{T}})
+	add(&ProvDesc{In: []int{S}, Out: []int{T}, Shun: variant != 0})
 	filler()
 	// the consumer that is left out
 	d := add(&ProvDesc{In: []int{T}})
